@@ -28,6 +28,18 @@ class PathEnd(Exception):
     pass
 
 
+_qcache = {}
+
+
+def _has_quantifier(t):
+    k = t.get_id()
+    if k in _qcache:
+        return _qcache[k]
+    r = z3.is_quantifier(t) or any(_has_quantifier(c) for c in (t.children() if z3.is_app(t) else []))
+    _qcache[k] = r
+    return r
+
+
 class Obligation:
     def __init__(self, name, kind, pc, goal, fn, line, clause=""):
         self.name, self.kind, self.pc, self.goal, self.fn, self.line, self.clause = name, kind, list(pc), goal, fn, line, clause
@@ -536,6 +548,13 @@ class Engine:
                 g_ = o.get
                 return st.alloc(H2D(o.cols, o.rows, lambda r, c: g_(c, r), etype=o.etype))
             return VConc("method:" + node.attr, (base,))
+        if isinstance(base, VFn) and node.attr in getattr(self, "fn_attrs", {}):
+            kind = self.fn_attrs[node.attr]
+            if kind == "bool":
+                return VBool(z3.Function("attr." + node.attr, Fn, z3.BoolSort())(base.t))
+            if kind == "int":
+                return VInt(z3.Function("attr." + node.attr, Fn, z3.IntSort())(base.t))
+            return VFn(z3.Function("attr." + node.attr, Fn, Fn)(base.t))
         if isinstance(base, (VStr, VLabel, VFloat, VInt, VTuple, VFn)):
             return VConc("method:" + node.attr, (base,))
         if isinstance(base, VMaybeNone) and isinstance(base.val, (VStr, VLabel)):
@@ -548,6 +567,8 @@ class Engine:
         if isinstance(node.op, ast.Not):
             return VBool(z3.Not(self.truth(v, st)))
         if isinstance(node.op, ast.USub):
+            if isinstance(v, VFn):
+                return VFn(z3.Function("opaque.neg", Fn, Fn)(v.t))
             return self.binop(ast.Sub(), VInt(0), v, st, node)
         if isinstance(node.op, ast.UAdd):
             return v
@@ -605,6 +626,8 @@ class Engine:
                 t = veq(a, b)
             elif isinstance(a, VRef) and isinstance(b, VRef):
                 t = z3.BoolVal(a.addr == b.addr)
+            elif isinstance(a, VFn) and isinstance(b, VFn):
+                t = a.t == b.t              # identity of opaque objects (sympy singletons: `x is S.Half`)
             else:
                 raise Unsupported("'is' on %r, %r" % (a, b))
             return VBool(t if isinstance(op, ast.Is) else z3.Not(t))
@@ -1900,6 +1923,23 @@ class Engine:
             ob.model = s.model()
         else:
             ob.status = "unknown"
+            # a candidate counterexample: the same query without the quantified facts (not conclusive -- the dropped facts may exclude
+            # it -- but it names concrete values the bounded search / a replay can start from)
+            try:
+                qf = z3.Solver()
+                qf.set("timeout", 2000)
+                for a in (self.axioms if ob.axioms is None else ob.axioms):
+                    if not _has_quantifier(a):
+                        qf.add(a)
+                for c in ob.pc:
+                    if not _has_quantifier(c):
+                        qf.add(c)
+                qf.add(z3.Not(ob.goal))
+                if qf.check() == z3.sat:
+                    ob.model = qf.model()
+                    ob.model_is_candidate = True
+            except Exception:
+                pass
             smt = s.to_smt2()
             for name, cmd in (("cvc5", ["/usr/bin/cvc5", "--tlimit=%d" % self.timeout_ms, "--lang=smt2"]),
                               ("z3-4.8", ["/usr/bin/z3", "-T:%d" % (self.timeout_ms // 1000), "-smt2"])):
